@@ -133,6 +133,7 @@ var mutantCatalogue = map[string][]mutant{
 		{Name: "nop costs zero cycles", File: "risc/risc.go", Old: "\tcase Nop:\n\t\treturn 1", New: "\tcase Nop:\n\t\treturn 0"},
 	},
 	"C09": {
+		{Name: "drain helper answers empty while a unit is busy", File: "proc/mvp6-2/cpu.go", Old: "func (m *CPU) areExecuteUnitsEmpty() bool {\n\tfor _, eu := range m.executeUnits {\n\t\tif !eu.isEmpty() {\n\t\t\treturn false", New: "func (m *CPU) areExecuteUnitsEmpty() bool {\n\tfor _, eu := range m.executeUnits {\n\t\tif !eu.isEmpty() {\n\t\t\treturn true"},
 		{Name: "pre-flush drain stops while the write bus still holds results", File: "proc/mvp6-3/cpu.go", Old: "for !wu.isEmpty() || !m.writeBus.IsEmpty() {", New: "for !wu.isEmpty() && !m.writeBus.IsEmpty() {"},
 		{Name: "completion predicate inverted on the control bus", File: "proc/mvp6-1/cpu.go", Old: "\t\tm.controlBus.IsEmpty() &&", New: "\t\t!m.controlBus.IsEmpty() &&"},
 		{Name: "ret not held behind an unresolved branch", File: "proc/mvp7-1/cu.go", Old: "risc.Ret && (!u.outBus.IsEmpty() || u.pendingConditionalBranch)", New: "risc.Ret && (!u.outBus.IsEmpty() && u.pendingConditionalBranch)"},
@@ -196,6 +197,7 @@ var mutantCatalogue = map[string][]mutant{
 		{Name: "pending write deleted outright", File: "risc/app.go", Old: "\t\tctx.PendingWriteRegisters[register]--\n\t\tif ctx.PendingWriteRegisters[register] <= 0 {\n\t\t\tdelete(ctx.PendingWriteRegisters, register)\n\t\t}\n\t}\n}\n\n// IsWriteDataHazard", New: "\t\tdelete(ctx.PendingWriteRegisters, register)\n\t}\n}\n\n// IsWriteDataHazard"},
 	},
 	"C05": {
+		{Name: "probe answers found on a miss", File: "proc/mvp6-1/mmu.go", Old: "\t\t\tu.pendings = append(u.pendings, [2]int32{addrs[0], addrs[0] + l3CacheLineSize + 1})\n\t\t\treturn nil, false, false\n", New: "\t\t\tu.pendings = append(u.pendings, [2]int32{addrs[0], addrs[0] + l3CacheLineSize + 1})\n\t\t\treturn nil, false, true\n"},
 		{Name: "line fill one byte too long", File: "proc/mvp6-1/mmu.go", Old: "for i := 0; i < l3CacheLineSize; i++ {\n\t\tif int(addr)+i < 0", New: "for i := 0; i <= l3CacheLineSize; i++ {\n\t\tif int(addr)+i < 0"},
 		{Name: "write-back stores at index len", File: "proc/mvp6-2/mmu.go", Old: "\t\tif int(addr)+i >= len(u.ctx.Memory) {\n\t\t\treturn", New: "\t\tif int(addr)+i > len(u.ctx.Memory) {\n\t\t\treturn"},
 		{Name: "L3 dirty flag never raised", File: "proc/mvp8-0/msi.go", Old: "\tm.l3Write[addr] = true\n", New: ""},
